@@ -89,6 +89,19 @@ fn nat(line: &str) -> String {
     ord_s(v::natural_cmp(&a, &b)).to_string()
 }
 
+/// What `str::parse::<f64>` returned for each name (the recorded float oracle).
+fn f64_table(names: &[String]) -> String {
+    let cells: Vec<String> = names
+        .iter()
+        .map(|s| match s.parse::<f64>() {
+            Err(_) => "none".to_string(),
+            Ok(x) if x.is_nan() => "nan".to_string(),
+            Ok(x) => format!("{:016x}", x.to_bits()),
+        })
+        .collect();
+    format!("f64:{}", cells.join(","))
+}
+
 fn cmp(line: &str) -> String {
     let t = hxlib::toks(line);
     let attr = attr_of(t[0]);
@@ -96,7 +109,7 @@ fn cmp(line: &str) -> String {
     let j: usize = t[2].parse().unwrap();
     let names = dec_names(t[3]);
     let refs: Vec<&str> = names.iter().map(|s| s.as_str()).collect();
-    ord_s(v::cmp_bench_arg_names(attr, &refs, i, j)).to_string()
+    format!("{} | {}", ord_s(v::cmp_bench_arg_names(attr, &refs, i, j)), f64_table(&names))
 }
 
 fn sort(line: &str) -> String {
@@ -106,11 +119,12 @@ fn sort(line: &str) -> String {
     let names = dec_names(t[2]);
     let refs: Vec<&str> = names.iter().map(|s| s.as_str()).collect();
     let perm = v::sort_arg_names(attr, reverse, &refs);
-    if perm.is_empty() {
+    let res = if perm.is_empty() {
         "ok -".to_string()
     } else {
         format!("ok {}", perm.iter().map(|i| i.to_string()).collect::<Vec<_>>().join(","))
-    }
+    };
+    format!("{} | {}", res, f64_table(&names))
 }
 
 /// What `str::parse::<f64>` makes of a name: `none`, `nan`, or the sign and
@@ -127,8 +141,8 @@ fn f64_of(line: &str) -> String {
 fn dispatch(mode: &str, line: &str) -> String {
     match mode {
         "nat" => nat(line),
-        "cmp" => cmp(line),
-        "sort" => sort(line),
+        "cmp" | "wcmp" => cmp(line),
+        "sort" | "wsort" => sort(line),
         "f64" => f64_of(line),
         "tree" => tree::tree(line),
         _ => panic!("unknown mode {mode}"),
